@@ -196,6 +196,15 @@ theorem rpcTable_map (g : File → File) (hI : ∀ f, (g f).isImport = f.isImpor
   intro f _
   exact hr f
 
+/-- the keyed method table (names included) under a rewriting that keeps every file's entries -/
+theorem rpcEntries_map (g : File → File) (hI : ∀ f, (g f).isImport = f.isImport)
+    (hr : ∀ f, fileRpcEntries (g f) = fileRpcEntries f) (w : Schema) : rpcEntries (w.map g) = rpcEntries w := by
+  unfold rpcEntries
+  rw [nonImport_map g hI, flatMap_map_left]
+  apply flatMap_congr_mem
+  intro f _
+  exact hr f
+
 /-! ### every multi-file rule under a header-preserving rewriting -/
 
 theorem optVal_congr {f f' : File} (h : f'.langOpts = f.langOpts) (k : Nat) : optVal f' k = optVal f k := by
@@ -235,7 +244,7 @@ theorem optLoc_of_optRaw {f f' : File} {k : Nat} (h : optRaw f' k = optRaw f k) 
 
 theorem globalRule_map (o : Options) (g : File → File) (k : KeepsHdr g) (w : Schema) (r : Rule)
     (hopts : ∀ i, optIndex r = some i → ∀ f, optRaw (g f) i = optRaw f i)
-    (hrpc : r = .RPC_REQUEST_RESPONSE_UNIQUE → ∀ f, fileRpcRows (g f) = fileRpcRows f) :
+    (hrpc : r = .RPC_REQUEST_RESPONSE_UNIQUE → ∀ f, fileRpcEntries (g f) = fileRpcEntries f) :
     globalRule o (w.map g) r = globalRule o w r := by
   cases r <;> simp only [globalRule, nonImport_map g k.isImport]
   case DIRECTORY_SAME_PACKAGE =>
@@ -244,7 +253,7 @@ theorem globalRule_map (o : Options) (g : File → File) (k : KeepsHdr g) (w : S
   case PACKAGE_SAME_DIRECTORY =>
     exact groupRule_map _ _ g _ _ _ k.pkg (fun f => fileDir_congr (k.path f)) (fun f => pkgLoc_congr (k.pkg f)) k.path
   case RPC_REQUEST_RESPONSE_UNIQUE =>
-    unfold rpcUnique; rw [rpcTable_map g k.isImport (hrpc rfl)]
+    unfold rpcUniqueCoded; rw [rpcEntries_map g k.isImport (hrpc rfl)]
   case STABLE_PACKAGE_NO_IMPORT_UNSTABLE => exact stableNoUnstable_map g k w
   all_goals
     exact groupRule_map _ _ g _ _ _ k.pkg (fun f => optVal_of_optRaw (hopts _ rfl f))
@@ -402,7 +411,7 @@ theorem cleanRule_global_plant (o : Options) (w : Schema) (r : Rule) (he : elemR
 theorem runRule_global_plant (o : Options) (w : Schema) (r : Rule) (he : elemRule r = none)
     (fp : Str) (h : File → File) (k : KeepsHdr h)
     (hopts : ∀ i, optIndex r = some i → ∀ f, optRaw (h f) i = optRaw f i)
-    (hrpc : r = .RPC_REQUEST_RESPONSE_UNIQUE → ∀ f, fileRpcRows (h f) = fileRpcRows f) :
+    (hrpc : r = .RPC_REQUEST_RESPONSE_UNIQUE → ∀ f, fileRpcEntries (h f) = fileRpcEntries f) :
     runRule o (plantFile fp h w) r = runRule o w r := by
   rw [runRule_global o _ r he, runRule_global o _ r he]
   unfold plantFile
